@@ -1,6 +1,6 @@
 //! AST stream: parse a whole assembly text with `asm::parser::parse` (includes not followed, nothing resolved)
 //! and print a canonical one-line dump of the AST with every byte span.
-//! line:  <hex-source>   ->   ERR | PANIC | OK <node> <node> ...
+//! line:  <hex-source>   ->   ERR <span of the first message> | PANIC | OK <node> <node> ...
 //! Expressions are printed exactly like harness/src/bin/expr.rs (`pr`), except that an asm block is
 //! `(asm S:E <node>...)`.  Spans are `start:end`, a dummy span is `-`.
 use customasm::*;
@@ -97,6 +97,23 @@ fn node(n: &asm::AstAny) -> String {
     }
 }
 
+/// Fallback used only when `Report` has no inherent `verif_messages` (inherent methods win method resolution).
+#[allow(dead_code)]
+trait VerifMessagesFallback {
+    fn verif_messages(&self) -> &[diagn::Message];
+}
+impl VerifMessagesFallback for diagn::Report {
+    fn verif_messages(&self) -> &[diagn::Message] { &[] }
+}
+
+/// span of the first message of the report (`?` when the hook is absent or the report is empty, `-` for no/dummy span)
+fn first_error_span(report: &diagn::Report) -> String {
+    match report.verif_messages().first() {
+        None => "?".to_string(),
+        Some(m) => match m.span { Some(s) => sp(s), None => "-".to_string() },
+    }
+}
+
 fn run() {
     for_each_line(|line| {
         let s = unhex(line.trim());
@@ -104,7 +121,7 @@ fn run() {
             let mut report = diagn::Report::new();
             let mut w = syntax::Walker::new(&s, 0, 0);
             match asm::parser::parse(&mut report, &mut w) {
-                Err(()) => "ERR".to_string(),
+                Err(()) => format!("ERR {}", first_error_span(&report)),
                 Ok(ast) => format!("OK{}", nodes(&ast.nodes)),
             }
         });
